@@ -57,6 +57,19 @@ CHECKS = {
         design_ref="DESIGN.md section 5 C17, section 10",
         note=(TB_COMMON + "Same value-set reading as C16. np.ceil(np.log2(n)) is compared with Z.log2_up at 2^k, 2^k+-1 (k<=20) on every run."),
         technique="Coq proof (induction over operand lists) + exhaustive differential correspondence + in-Coq brute force"),
+    "C03": dict(
+        category="proof",
+        text=("Coq theorems (Properties/C03.v) over all bit widths, max_value settings and rational inputs: the exponent lies in the "
+              "configured interval, the sign follows the input, zero / sub-epsilon inputs map to the smallest code, negatives of the ReLU "
+              "variant map to the smallest code (or a negative power under a slope), the exponent is the log2-nearest / floor exponent "
+              "(from a proved specification of floor(log2) on rationals), a power-of-two max_value is never exceeded, the map is monotone on "
+              "each sign and idempotent in 'rnd' mode; floor-mode idempotence and the leaky min() are refuted with witnesses. The model is "
+              "compared with the implementation at every exponent breakpoint +-ulps, clamp edges, 0, eps, denormals and huge inputs through a "
+              "float32-faithful model of the final straight-through sum."),
+        design_ref="DESIGN.md section 5 C03, section 10",
+        note=(TB_COMMON + "float32 log is an oracle: the implementation's exponent must lie between the exact exponents of x(1-2^-18) and "
+              "x(1+2^-18); breakpoint shifts below that are invisible. tf.pow(2, integer) assumed exact (any inexactness shows as a mismatch)."),
+        technique="Coq proof over an exact rational model (floor-log2 specification) + differential correspondence with a tolerance band for float32 log"),
 }
 
 NOT_YET = "check not built yet in this development (design in DESIGN.md section 5); not a claim that proof is inapplicable"
